@@ -311,8 +311,63 @@ struct Reg {
   }
   void full_scan(const char *when) {
     c.logf("scan mpt_type_traits(0..0x1100) %s", when);
-    for (uintptr_t id = 0; id <= 0x1100; id++) expect_id(id, mpt_type_traits(id), when);
+    std::vector<std::pair<const type_traits *, uintptr_t>> all;
+    for (uintptr_t id = 0; id <= 0x1100; id++) {
+      const type_traits *tt = mpt_type_traits(id);
+      expect_id(id, tt, when);
+      if (tt) all.push_back({tt, id});
+    }
+    distinct(all, when);
     c.label("full-scan");
+  }
+  // The library takes the address of a description as the identity of a content type (mpt_array_set & co. compare
+  // `traits != buf->_content_traits`): two ids must never resolve to one description object. On the unchanged tree
+  // every id 0..0x1100 that resolves at all has a description of its own (no legitimate sharing was found: core,
+  // scalar and vector ids are elements of three arrays, 0x800..0x803 four statics, every interface/metatype/basic
+  // entry carries its own copy); the only way to share one is registering the same traits object twice with
+  // mpt_type_add(), which this harness never does.
+  void distinct(std::vector<std::pair<const type_traits *, uintptr_t>> &all, const char *when) {
+    std::sort(all.begin(), all.end());
+    for (size_t i = 1; i < all.size(); i++)
+      VP_CHECK(c, all[i].first != all[i - 1].first, "description-shared", "%s: ids 0x%zx and 0x%zx resolve to the same description object %p: they are one content type for typed arrays", when, (size_t)all[i - 1].second, (size_t)all[i].second, (const void *)all[i].first);
+  }
+  void distinct_known(const char *when) {  // built-in table, built-in interfaces and everything registered
+    static const std::vector<Builtin> table = builtin_table();
+    std::vector<std::pair<const type_traits *, uintptr_t>> all;
+    auto add = [&](uintptr_t id) { if (const type_traits *tt = mpt_type_traits(id)) all.push_back({tt, id}); };
+    for (auto &b : table) add(b.id);
+    for (auto &b : kCoreIface) add(b.id);
+    for (int k = 0; k < NKind; k++) for (auto &x : m.e[k]) add(x.id);
+    distinct(all, when);
+  }
+  // behavioural side of the same statement: an array typed with id A refuses content declared with another id B
+  uintptr_t draw_typed_id() {
+    size_t pool = c.weighted({4, 3, 3, 2, 1, 1});
+    switch (pool) {
+      case 0: return kCoreIface[c.pick(sizeof kCoreIface / sizeof *kCoreIface)].id;
+      case 1: if (!m.e[KIface].empty()) return m.e[KIface][c.pick(m.e[KIface].size())].id; return kCoreIface[c.pick(9)].id;
+      case 2: if (!m.e[KMeta].empty() && c.flip()) return m.e[KMeta][c.pick(m.e[KMeta].size())].id; return TypeMetaPtr;
+      case 3: if (!m.e[KGeneric].empty()) return m.e[KGeneric][c.pick(m.e[KGeneric].size())].id; return TypeIdentifier;
+      case 4: if (!m.e[KBasic].empty()) return m.e[KBasic][c.pick(m.e[KBasic].size())].id; return 'd';
+      default: return c.choose<uintptr_t>({'c', 'i', 'x', 'd', 's', 'I', 'D', TypeValue, TypeNodePtr, TypeBufferPtr});
+    }
+  }
+  void probe_pair(uintptr_t a, uintptr_t b) {
+    const type_traits *ta = mpt_type_traits(a), *tb = mpt_type_traits(b);
+    if (a == b || !ta || !tb || !ta->size || !tb->size || ta->size > 4096 || tb->size > 4096) { c.label("probe:skipped"); return; }
+    // identifier/array/... need constructed elements: only plain-copy types and the harness' own (no-op) init/fini are stored
+    auto plain = [&](const type_traits *t) { return (!t->init || t->init == h_init) && (!t->fini || t->fini == h_fini); };
+    if (!plain(ta) || !plain(tb)) { c.label("probe:skipped"); return; }
+    std::vector<uint8_t> zero(std::max(ta->size, tb->size), 0);
+    CObj<mpt::array> arr;
+    struct Release { mpt::array *a; ~Release() { mpt_array_clone(a, 0); } } rel{arr};
+    void *first = mpt_array_set(arr, ta, ta->size, zero.data(), 0);
+    c.logf("typed array of id 0x%zx: element declared as 0x%zx", (size_t)a, (size_t)b);
+    if (!first) { c.label("probe:create-refused"); return; }
+    void *other = mpt_array_set(arr, tb, tb->size, zero.data(), 1);
+    VP_CHECK(c, !other, "type-confusion", "an array whose content type is id 0x%zx accepted an element declared as id 0x%zx (descriptions %p / %p)", (size_t)a, (size_t)b, (const void *)ta, (const void *)tb);
+    void *same = mpt_array_set(arr, ta, ta->size, zero.data(), 1);
+    c.label(same ? "probe:pair" : "probe:same-type-refused");
   }
   void check_named(const named_traits *nt, bool found, uintptr_t id, const named_traits *want, const char *call, const std::string &shown) {
     if (!found) { VP_CHECK(c, !nt, "name-lookup", "%s '%s' finds id 0x%zx '%s', the model has no such name", call, shown.c_str(), nt ? (size_t)nt->type : 0, nt && nt->name ? nt->name : "(null)"); c.label("name-lookup:miss"); return; }
@@ -442,7 +497,10 @@ static void history(Ctx &c, Reg &r) {
   if (c.flip()) r.builtin_check("at start");
   while (c.more()) {
     bool added = false, refused = false;
-    switch (c.weighted({4, 4, 6, 6, 7, 8, 3, 1, 2})) {
+    size_t opbyte = c.range(0, 255), op = 0;
+    if (opbyte >= 0xf0) op = 9;  // new in round 7; below 0xf0 the byte decodes exactly as weighted({4,4,6,6,7,8,3,1,2}) did
+    else { static const unsigned w[] = {4, 4, 6, 6, 7, 8, 3, 1, 2}; unsigned r = opbyte % 41; while (r >= w[op]) r -= w[op++]; }
+    switch (op) {
       case 0: added = r.add_basic(c.near({0, 1, 8, 255, 256, 65535, 65536}, 100000)); refused = !added; break;
       case 1: added = r.add_generic(c.chance(16) ? 0 : c.near({1, 8, 24, 256, 65536}, 100000), (int)c.pick(4)); refused = !added; break;
       case 2: { bool nul; std::string n = r.draw_name(nul); added = r.add_named(KIface, nul, n); refused = !added; } break;
@@ -458,6 +516,7 @@ static void history(Ctx &c, Reg &r) {
         c.label("bulk");
       } break;
       case 7: r.full_scan("in history"); break;
+      case 9: { uintptr_t a = r.draw_typed_id(), b = r.draw_typed_id(); r.probe_pair(a, b); } break;
       default: {  // small ranges run dry
         int k = c.flip() ? KBasic : KIface;
         r.exhaust(k, c.flip(), c.range(1, 3));
@@ -469,6 +528,13 @@ static void history(Ctx &c, Reg &r) {
   r.builtin_check("at end");
   r.verify_all("at end", true);
   if (c.flip()) r.full_scan("at end");
+  r.distinct_known("at end");
+  r.probe_pair(TypeLoggerPtr, TypeIteratorPtr);
+  { uintptr_t a = r.draw_typed_id(), b = r.draw_typed_id(); r.probe_pair(a, b); }
+  for (int k = KIface; k <= KMeta; k++) if (r.m.e[k].size() >= 2) r.probe_pair(r.m.e[k].front().id, r.m.e[k].back().id);
+  if (!r.m.e[KIface].empty()) r.probe_pair(r.m.e[KIface].back().id, TypeConvertablePtr);
+  if (!r.m.e[KMeta].empty()) r.probe_pair(TypeMetaPtr, r.m.e[KMeta].back().id);
+  if (r.m.e[KGeneric].size() >= 2) r.probe_pair(r.m.e[KGeneric].front().id, r.m.e[KGeneric].back().id);
 }
 
 static void run(Ctx &c) {
@@ -484,6 +550,8 @@ static void run(Ctx &c) {
     r.builtin_check("enumerated");
     r.verify_all("enumerated", true);
     r.full_scan("enumerated, second pass");
+    r.probe_pair(TypeLoggerPtr, TypeIteratorPtr);
+    for (int k = KGeneric; k <= KMeta; k++) if (r.m.e[k].size() >= 2) r.probe_pair(r.m.e[k].front().id, r.m.e[k].back().id);
     c.nontrivial();
     return;
   }
